@@ -43,7 +43,7 @@ class Sym:
         return t
 
     def _term(self, e, at, depth):
-        if depth > 12:
+        if depth > 40:
             return ('deep',)
         T = lambda x: self.term(x, at, depth + 1)   # noqa: E731
         if isinstance(e, ast.Name):
@@ -65,12 +65,17 @@ class Sym:
                 l, r = r, l
             return ('bin', type(e.op).__name__, l, r)
         if isinstance(e, ast.UnaryOp):
+            if isinstance(e.op, ast.USub) and isinstance(e.operand, ast.Constant) and \
+                    isinstance(e.operand.value, (int, float)) and not isinstance(e.operand.value, bool):
+                return ('const', -e.operand.value)
             return ('un', type(e.op).__name__, T(e.operand))
         if isinstance(e, ast.Call):
             kws = tuple(sorted((k.arg or '**', T(k.value)) for k in e.keywords))
             return ('call', T(e.func), tuple(T(a) for a in e.args), kws)
         if isinstance(e, ast.Compare) and len(e.ops) == 1:
             return ('cmp', type(e.ops[0]).__name__, T(e.left), T(e.comparators[0]))
+        if isinstance(e, ast.BoolOp):
+            return ('bool', type(e.op).__name__) + tuple(T(v) for v in e.values)
         if isinstance(e, ast.IfExp):
             return ('ifexp', T(e.test), T(e.body), T(e.orelse))
         if isinstance(e, ast.Starred):
